@@ -130,10 +130,17 @@ def plan(ctx, cat):
             continue
         vs = D.variants(e, rng, nvar, sweep=not ctx.quick)
         nrand = len(vs)
+        # every moving-average selector parameter swept over window and recursive types, on every length (all clauses)
+        seen = {tuple(sorted(v.items())) for v in vs}
+        for m in D.matype_variants(e):
+            if tuple(sorted(m.items())) not in seen:
+                seen.add(tuple(sorted(m.items())))
+                vs.append(m)
+        nrand = len(vs)
         cs = [c + (list(range(nrand)),) for c in cases]
         # long windows on long inputs: the history before the trailing 240 candles still weighs on the value, so a result
         # computed on the wrong slice of the input differs visibly (clause 3: single(long) = Last(seq(trailing window)))
-        extra = [0]
+        extra = [0] + list(range(nrand - len(D.matype_variants(e)), nrand)) if D.matype_like(e) else [0]
         slow = D.slow_variant(e)
         if slow is not None:
             vs.append(slow)
